@@ -171,3 +171,30 @@ def c_obs(obs):
     if k == "missing":
         return '(OMissing "%s"%%string)' % obs["oh"]
     return "OOther"
+
+
+# ------------------------------------------------------------ pattern instances
+
+NUC = {"A": "A", "C": "C", "G": "G", "T": "T", "R": "AG", "Y": "CT", "S": "CG", "W": "AT", "K": "GT", "M": "AC",
+       "B": "CGT", "D": "AGT", "H": "ACT", "V": "ACG", "N": "ACGT"}
+
+
+def class_letter(rng, codes):
+    """a target letter accepted by a class given as a string of IUPAC codes"""
+    real = [c for c in codes if c in "ACGT"]
+    return rng.choice(real) if real else rng.choice(codes)
+
+
+def instantiate(rng, items, star=(0, 4)):
+    """a word matching a flat pattern (items of harness.pattern.tokenize)"""
+    out = []
+    for it in items:
+        if it[0] == "atom":
+            out.append(class_letter(rng, it[1]))
+        elif it[0] in ("starg", "starl"):
+            out.append("".join(class_letter(rng, it[1]) for _ in range(rng.randrange(star[0], star[1] + 1))))
+    return "".join(out)
+
+
+def kit_spec(c):
+    return {"kind": "kit", "kit": c["kit"], "name": c["name"]}
